@@ -186,6 +186,30 @@ theorem recovery_after_crashes (digest : Src → Nat) (hinj : Function.Injective
       = .loaded s :=
   recovery digest hinj _ (exec_inv hinj tr _ (Inv_init digest) (noFault_admissible digest tr _ htr)) i hi s c
 
+/-- **Requests for different forms do not interfere**: a step of a process of the repaired
+protocol changes no shared file except (by `pub`) the final path of its own module name. -/
+theorem step_touches_only_own_entry (digest : Src → Nat) (hinj : Function.Injective digest)
+    (σ : State) (hσ : Inv digest σ) (i : Nat) (c : Bool) (n : Nat) (k : Kind)
+    (h : Path.shared n k ≠ final (digest (σ.procs i).src)) :
+    (step .repaired digest σ (.run i c)).dir (.shared n k) = σ.dir (.shared n k) :=
+  (pstep_facts hinj c hσ.final_ok hσ.fresh (hσ.procs_ok i)).shared_frame n k h
+
+/-! ## the named assumptions are needed, and a tempting wrong repair is unsafe -/
+
+/-- Without digest injectivity even the repaired protocol hands out the wrong module: with a
+colliding digest the second request loads the first request's assembler. -/
+theorem digest_injectivity_needed :
+    ((exec .repaired (fun _ => 0) State.init
+        ([.spawn 0 1] ++ runs 0 false 13 ++ [.spawn 1 2, .run 1 false])).procs 1).pc = .loaded 1 := by
+  decide
+
+/-- "Build in a temporary directory" is not enough if its name is shared: two builders in the
+same fixed directory break each other exactly as in MODDIR (nobody is killed; A raises). -/
+theorem sharedTmp_unsafe : ¬ Safe .sharedTmp := by
+  intro h
+  have := (h id (fun _ _ h => h) witnessRaceBuild (by decide)).2 0
+  exact this.2.1 (by decide)
+
 /-! ## non-vacuity: the hypotheses are satisfiable and the repaired protocol does something -/
 
 /-- the same three schedules that break the current protocol, run under the repaired one:
